@@ -1,3 +1,4 @@
 import CatiiModel.Dtypes
 import CatiiModel.Gen.FitDtype
 import CatiiModel.Gen.Consts
+import CatiiModel.Kernels
